@@ -107,14 +107,22 @@ end Admm
 section Adupdates
 variable {K V W : Type}
 
+/-- `inner_stepsizes[j]`: a scalar (`np.isscalar`) or anything else (element, array, list), used
+through `np.asarray` as a POINTWISE step. -/
+inductive InnerSS (K W : Type)
+  | scalar (c : K)
+  | pointwise (a : W)
+
 structure AduP (K V W : Type) where
   m : Nat
   L : Nat → V → W
   Ladj : Nat → W → V
-  /-- `g[j].convex_conj.proximal(stepsize * inner_stepsizes[j])` -/
+  /-- `g[j].convex_conj.proximal(stepsize * inner_stepsizes[j])` (scalar or pointwise step) -/
   prox : Nat → W → W
   stepsize : K
-  inner : Nat → K
+  inner : Nat → InnerSS K W
+  /-- entry-wise product in the range (`array * element`) -/
+  mulW : W → W → W
   /-- index of the shared temporary `tmp_rans[L[j].range]` -/
   rid : Nat → Nat
   /-- `callback_loop == 'inner'` -/
@@ -136,9 +144,15 @@ variable [OfNat K 1] [Div K] [Mul K] [SMul K V] [SMul K W] [Sub V] [Add W] [Sub 
 def AduP.primal (P : AduP K V W) (duals : Nat → W) (x : V) : V :=
   forRange (fun i x => x - ((1 : K) / P.stepsize) • P.Ladj i (duals i)) P.m x
 
+/-- `step * w` with `step = stepsize * inner_stepsizes[j] if np.isscalar(inner_stepsizes[j])
+else stepsize * np.asarray(inner_stepsizes[j])` -/
+def AduP.scaled (P : AduP K V W) (j : Nat) (w : W) : W :=
+  match P.inner j with
+  | .scalar c => (P.stepsize * c) • w
+  | .pointwise a => P.mulW (P.stepsize • a) w
+
 def AduP.innerOpt (P : AduP K V W) (j : Nat) (s : AduOpt V W) : AduOpt V W :=
-  let step := P.stepsize * P.inner j
-  let arg := s.duals j + step • P.L j s.x                        -- duals[j] + step * L[j](x)
+  let arg := s.duals j + P.scaled j (P.L j s.x)                  -- duals[j] + step * L[j](x)
   let t := P.prox j arg                                          -- proxs[j](arg, out=tmp_ran)
   let x' := s.x - ((1 : K) / P.stepsize) • P.Ladj j (t - s.duals j)
   let duals' := upd s.duals j t                                  -- duals[j].assign(tmp_ran)
@@ -150,8 +164,9 @@ def AduP.stepOpt (P : AduP K V W) (s : AduOpt V W) : AduOpt V W :=
   if P.cbInner then s2 else { s2 with log := s2.log ++ [s2.x] }
 
 def AduP.innerSimple (P : AduP K V W) (j : Nat) (s : AduSimple V W) : AduSimple V W :=
-  -- dual_tmp = prox(duals[j] + stepsize * inner_stepsizes[j] * L[j](x))
-  let t := P.prox j (s.duals j + (P.stepsize * P.inner j) • P.L j s.x)
+  -- dual_tmp = prox(duals[j] + stepsize * inner_stepsizes[j] * L[j](x))   (scalar branch)
+  --            prox(duals[j] + stepsize * np.asarray(inner_stepsizes[j]) * L[j](x))   (otherwise)
+  let t := P.prox j (s.duals j + P.scaled j (P.L j s.x))
   let x' := s.x - ((1 : K) / P.stepsize) • P.Ladj j (t - s.duals j)
   ⟨x', upd s.duals j t⟩
 
